@@ -1086,6 +1086,47 @@ pub fn c08(tier: Tier, caps: &Caps) -> Vec<FamilyReport> {
         &|i| c08_after_connack(&gram[(i / 2) as usize], i % 2 == 1),
         &|i| json!({"phase": "after-connack", "bytes": mr::hex(&gram[(i / 2) as usize]), "fragmented": i % 2 == 1}),
     ));
+    // variable byte integers inside the packet: every string of 1..=4 bytes over a boundary alphabet as
+    // the value of a Subscription Identifier, and every such string as the property-block length
+    let alphabet: [u8; 10] = [0x00, 0x01, 0x0F, 0x10, 0x7F, 0x80, 0x81, 0x8F, 0x90, 0xFF];
+    let mut vb: Vec<Vec<u8>> = Vec::new();
+    for len in 1..=4usize {
+        let n = alphabet.len().pow(len as u32);
+        for mut i in 0..n {
+            let mut v = Vec::with_capacity(len);
+            for _ in 0..len {
+                v.push(alphabet[i % alphabet.len()]);
+                i /= alphabet.len();
+            }
+            vb.push(v);
+        }
+    }
+    let mut vcases: Vec<Vec<u8>> = Vec::new();
+    for v in &vb {
+        // PUBLISH qos 0, topic "a", properties = Subscription Identifier <v>, payload 0x55
+        let mut body = vec![0x00, 0x01, b'a', (1 + v.len()) as u8, 0x0B];
+        body.extend_from_slice(v);
+        body.push(0x55);
+        let mut p = vec![0x30, body.len() as u8];
+        p.extend_from_slice(&body);
+        vcases.push(p);
+        // the same string as the property-block length in front of one Payload Format Indicator
+        let mut body = vec![0x00, 0x01, b'a'];
+        body.extend_from_slice(v);
+        body.extend_from_slice(&[0x01, 0x01, 0x55]);
+        let mut p = vec![0x30, body.len() as u8];
+        p.extend_from_slice(&body);
+        vcases.push(p);
+    }
+    out.push(sweep(
+        "C08-variable-byte-integers-inside-packets",
+        "C08",
+        vcases.len() as u64 * 2,
+        caps,
+        json!({"cases": "every string of 1..=4 bytes over {00,01,0F,10,7F,80,81,8F,90,FF} (11110 strings: all band boundaries up to 268435455, overlong, unterminated and oversized forms) as the value of a Subscription Identifier of an inbound PUBLISH and as its property-block length; each whole and byte-by-byte", "rx": C08_RX}),
+        &|i| c08_after_connack(&vcases[(i / 2) as usize], i % 2 == 1),
+        &|i| json!({"phase": "after-connack", "bytes": mr::hex(&vcases[(i / 2) as usize]), "fragmented": i % 2 == 1}),
+    ));
     let mut cgram: Vec<Vec<u8>> = Vec::new();
     for p in c08_connack_grammar() {
         let b = p.encode();
